@@ -231,8 +231,10 @@ def gen_history(rng, tier, length):
             n += 1
         elif r < 0.80:
             ops.append(('mutate', i, rng.choice(list(MUTATE))))
-        elif r < 0.90:
+        elif r < 0.88:
             ops.append(('direct', i, rng.choice(list(DIRECT))))
+        elif r < 0.93:
+            ops.append(('addderiv', i, rng.choice([0, 1, 2])))
         else:
             ops.append(('nonmut', i, rng.choice(list(NONMUT))))
     return ops
@@ -325,6 +327,29 @@ def run_history(ops, Pm):
                             out = 'refused'
                     else:
                         out = 'noarray'
+                elif kind == 'addderiv':
+                    # inserting a NEW derivative is allowed on a read-only object; the derivative must then
+                    # be read-only too (also when it has to be broadcast down from a size-1 shape)
+                    rec = W.objs[op[1]]
+                    x = rec['obj']
+                    if x.DERIVS_OK and not x.is_bool():
+                        d = x.wod * 2. if not x.is_int() else x.wod.as_float()
+                        if not x.shape and op[2]:
+                            d = d.reshape((1,) * op[2])
+                        key = 'z%d' % step
+                        x.insert_deriv(key, d)
+                        if x.readonly and not x.derivs[key].readonly:
+                            fails.append(({'what': 'new-derivative-of-readonly-is-writable',
+                                           'shapeless': not x.shape, 'deriv_rank': op[2]}, {}))
+                        elif x.readonly:
+                            try:
+                                x.derivs[key].__imul__(3.)
+                                fails.append(({'what': 'mutator-accepted-on-derivative-of-readonly',
+                                               'shapeless': not x.shape, 'deriv_rank': op[2]}, {}))
+                            except ValueError:
+                                pass
+                    else:
+                        out = 'skip'
                 elif kind == 'nonmut':
                     rec = W.objs[op[1]]
                     x = rec['obj']
